@@ -12,6 +12,10 @@ pub mod c09;
 pub mod common;
 pub mod xfer;
 pub mod c10;
+pub mod c11;
+pub mod c13;
+pub mod c15;
+pub mod c16;
 pub mod c18;
 pub mod c19_backoff;
 pub mod c19b;
@@ -28,6 +32,10 @@ pub fn dispatch(args: &Args) -> Report {
         "C08" => c08::run(args),
         "C09" => c09::run(args),
         "C10" => c10::run(args),
+        "C11" => c11::run(args),
+        "C13" => c13::run(args),
+        "C15" => c15::run(args),
+        "C16" => c16::run(args),
         "C18" => c18::run(args),
         "C19B" => c19b::run(args),
         "C20" => c20::run(args),
